@@ -243,3 +243,55 @@ def skeleton(spec):
     """Coarse class of a spec for signatures: never the raw numbers."""
     ws, h, lay, i, e, r = spec
     return "w%d/%s/%dsec/imp%d/exp%d/rel%d" % (ws, HDR_NAMES[h], len(lay), i, e, r)
+
+
+# ---------------------------------------------------------------------------------------------------------------
+# images with long import tables (C44: stub allocation across libraries and across images sharing one libimp)
+
+# name -> [(dll, number of imported functions)] in import-descriptor order. 256 stubs fit the 0x1000 region a
+# library gets from libimp, so 255/256/257 are the boundary sizes and 300/600 cross one/two regions.
+IMPORT_SHAPES = {
+    "small": [("a.dll", 2), ("b.dll", 2)],
+    "small2": [("a.dll", 3), ("c.dll", 2)],
+    "n255": [("n.dll", 255), ("b.dll", 2)],
+    "n256": [("n.dll", 256), ("b.dll", 2)],
+    "n257": [("n.dll", 257), ("b.dll", 2)],
+    "big_last": [("a.dll", 2), ("big.dll", 300)],
+    "big_first": [("big.dll", 300), ("b.dll", 2)],
+    "big_middle": [("a.dll", 2), ("big.dll", 300), ("c.dll", 2)],
+    "two_big": [("big1.dll", 300), ("big2.dll", 300), ("c.dll", 2)],
+    "huge_first": [("huge.dll", 600), ("b.dll", 2)],
+}
+
+
+def import_funcs(n):
+    """n distinct imports: names, with an ordinal every 64th entry (also the 256th and 257th are of different kinds)."""
+    return [(1000 + k) if k % 64 == 63 else "fn%03d" % k for k in range(n)]
+
+
+def build_import_image(wsize, shape, base):
+    """PE with the import table IMPORT_SHAPES[shape], built like example/loader/build_pe.py (thunks in the first
+    section, import directory in a section of its own). Return (bytes, model) where model lists
+    (dll, function, slot virtual address) computed from the shape alone."""
+    from miasm.loader.pe_init import PE
+    psz = wsize // 8
+    libs = IMPORT_SHAPES[shape]
+    nslots = sum(n + 1 for _, n in libs)
+    iat_off = 0x100
+    pe = PE(wsize=wsize)
+    pe.NThdr.ImageBase = base
+    text = pe.SHList.add_section(name="text", data=b"\xc3", rawsize=_roundup(iat_off + nslots * psz, 0x1000))
+    pe.Opthdr.AddressOfEntryPoint = text.addr
+    new_dll, model = [], []
+    slot = text.addr + iat_off
+    for i, (dll, n) in enumerate(libs):
+        funcs = import_funcs(n)
+        new_dll.append(({"name": dll, "firstthunk": slot if i == 0 else None}, list(funcs)))
+        for f in funcs:
+            model.append((dll, f, base + slot))
+            slot += psz
+        slot += psz
+    pe.DirImport.add_dlldesc(new_dll)
+    s_imp = pe.SHList.add_section(name="myimp", rawsize=len(pe.DirImport))
+    pe.DirImport.set_rva(s_imp.addr)
+    return bytes(pe), model
